@@ -26,8 +26,9 @@ BOUNDS = ("Histories are ENUMERATED: every sequence of up to 3 (quick) / 4 (thor
           "while it was registered, once, in order, identical for all writers; a text stream got "
           "the decoded text and a binary stream the bytes; flush reached every registered file "
           "writer; teardown disconnected every writer, emptied the list and did not close streams "
-          "the caller supplied. Plus concrete cells with a path-based FileWriter on a real "
-          "temporary file (contents after flush/teardown = concatenation of the lines).")
+          "the caller supplied. Plus CONCRETE (not solver-decided) cells with a path-based FileWriter on a real "
+          "temporary file: every history of up to 3/4 steps over {emit, remove + re-add the writer, "
+          "flush} ending in teardown leaves exactly the concatenation of the lines in the file.")
 ASSUMPTIONS = [
     "io objects are stubs: real files/streams (C-implemented io, the file system, buffering) are "
     "only exercised by the concrete path-based cells",
@@ -257,8 +258,65 @@ def _make_real_file(seq_name):
     return h
 
 
+def _make_real_history(seq):
+    """Concrete: a path-based FileWriter on a real temporary file through a history of
+    emit / remove+re-add / flush / teardown: the file always holds every line written to it."""
+    from gscrib import GCodeBuilder
+    from gscrib.writers import FileWriter
+
+    def h():
+        d = tempfile.mkdtemp(prefix="vf_c14_")
+        path = os.path.join(d, "out.gcode")
+        try:
+            g = GCodeBuilder(line_endings="\\n")
+            fw = FileWriter(path)
+            g.add_writer(fw)
+            ref = Rec()
+            g.add_writer(ref)
+            n = 0
+            for op in seq:
+                if op == "emit":
+                    n += 1
+                    g.comment(f"line {n} é")
+                elif op == "readd":
+                    g.remove_writer(fw)
+                    g.add_writer(fw)
+                elif op == "flush":
+                    g.flush()
+                    data = b""
+                    if os.path.exists(path):      # the writer connects lazily on its first line
+                        with open(path, "rb") as f:
+                            data = f.read()
+                    if data != b"".join(ref.chunks):
+                        return V("file-contents-differ-from-the-emitted-stream",
+                                 lambda: f"history {seq}: after flush the file holds {data!r}, "
+                                         f"written {b''.join(ref.chunks)!r}")
+            g.teardown()
+            data = b""
+            if os.path.exists(path):
+                with open(path, "rb") as f:
+                    data = f.read()
+            if data != b"".join(ref.chunks):
+                return V("file-contents-differ-from-the-emitted-stream",
+                         lambda: f"history {seq}: after teardown the file holds {data!r}, "
+                                 f"written {b''.join(ref.chunks)!r}")
+            reached("end")
+            return None
+        finally:
+            import shutil
+            shutil.rmtree(d, ignore_errors=True)
+    return h
+
+
 def cells(tier):
     out = []
+    for n in (2, 3, 4):
+        for seq in itertools.product(("emit", "readd", "flush"), repeat=n):
+            if "emit" in seq and (tier != "quick" or n <= 3):
+                out.append(Cell("real-file-history|" + ",".join(seq), _make_real_history(seq),
+                                budget_s=60, must_reach=("end",),
+                                entry="FileWriter (path based, concrete)",
+                                note="concrete, not solver-decided"))
     maxlen = 3 if tier == "quick" else 4
     seqs = []
     for n in range(1, maxlen + 1):
